@@ -546,8 +546,22 @@ impl GraphOptimizer {
                             continue;
                         };
 
+                        // Graph outputs must remain distinct nodes, so don't
+                        // share a constant between an output and other values.
+                        let is_output = graph_mut.output_ids.contains(&value_id);
                         let const_id = match const_ids.entry((index, dtype)) {
-                            Entry::Occupied(entry) => *entry.get(),
+                            Entry::Occupied(entry) if !is_output => *entry.get(),
+                            Entry::Occupied(_) => {
+                                let Some(const_id) = add_typed_constant(
+                                    &mut graph_mut,
+                                    &infer_result.constants[index],
+                                    dtype,
+                                ) else {
+                                    // Value is not representable in target type
+                                    continue;
+                                };
+                                const_id
+                            }
                             Entry::Vacant(entry) => {
                                 let Some(const_id) = add_typed_constant(
                                     &mut graph_mut,
